@@ -22,6 +22,7 @@ func (cs *safe) GetAsString(name string, fallback string) StringOption {
 		defer lock.Unlock()
 		if !valid.IsSet() {
 			valid = getValidityFlag()
+			verifPoint("config.get.afterFlag")
 			option, valueCache = getValueCache(name, option, OptTypeString)
 			if valueCache != nil {
 				value = valueCache.stringVal
@@ -48,6 +49,7 @@ func (cs *safe) GetAsStringArray(name string, fallback []string) StringArrayOpti
 		defer lock.Unlock()
 		if !valid.IsSet() {
 			valid = getValidityFlag()
+			verifPoint("config.get.afterFlag")
 			option, valueCache = getValueCache(name, option, OptTypeStringArray)
 			if valueCache != nil {
 				value = valueCache.stringArrayVal
@@ -74,6 +76,7 @@ func (cs *safe) GetAsInt(name string, fallback int64) IntOption {
 		defer lock.Unlock()
 		if !valid.IsSet() {
 			valid = getValidityFlag()
+			verifPoint("config.get.afterFlag")
 			option, valueCache = getValueCache(name, option, OptTypeInt)
 			if valueCache != nil {
 				value = valueCache.intVal
@@ -100,6 +103,7 @@ func (cs *safe) GetAsBool(name string, fallback bool) BoolOption {
 		defer lock.Unlock()
 		if !valid.IsSet() {
 			valid = getValidityFlag()
+			verifPoint("config.get.afterFlag")
 			option, valueCache = getValueCache(name, option, OptTypeBool)
 			if valueCache != nil {
 				value = valueCache.boolVal
